@@ -140,7 +140,7 @@ static int macho_read_section(
   macho_section.flags             = file.get_int32();
   macho_section.reserved1         = file.get_int32();
   macho_section.reserved2         = file.get_int32();
-  macho_section.reserved3         = file.get_int32();
+  macho_section.reserved3         = bits == 64 ? file.get_int32() : 0;
 
   return 0;
 }
@@ -202,6 +202,15 @@ int read_macho(
   const uint32_t file_length = file.get_file_length();
 
   macho_header.magic_number = file.get_int32();
+
+  // A file written for a big endian CPU has its header in that byte order.
+  if (macho_header.magic_number == 0xcefaedfe ||
+      macho_header.magic_number == 0xcffaedfe)
+  {
+    file.set_endian(FileIo::FILE_ENDIAN_BIG);
+    file.set(0);
+    macho_header.magic_number = file.get_int32();
+  }
 
   if (macho_header.magic_number != 0xfeedface &&
       macho_header.magic_number != 0xfeedfacf)
